@@ -8,6 +8,7 @@
 #include "language_names.h"
 
 #include "keywords.h"
+#include "option.h"
 
 static lang_name_t language_names[] =
 {
@@ -175,7 +176,7 @@ void print_extensions(FILE *pfile)
                fprintf(pfile, "file_ext %s", extension_val.second.c_str());
                did_one = true;
             }
-            fprintf(pfile, " %s", extension_val.first.c_str());
+            fprintf(pfile, " %s", uncrustify::quote_config_arg(extension_val.first).c_str());
          }
       }
 
